@@ -153,12 +153,18 @@ class FdEngine:
         for (adt, name) in own_direct:
             self.own_idx.setdefault(adt, set()).add(field_index(F, adt, name))
 
+    extra_sinks = ()
+
     def sink_kind(self, f, t, aliases, tracer):
         """is this call terminator a release of one of the aliases?  returns description or None"""
         args = t["args"]
         hit = [i for i, a in enumerate(args) if op_place(a) is not None and a["pl"]["l"] in aliases]
         if not hit:
             return None
+        xs = self.extra_sinks or (LIST_SINKS if KIND == "fd" else ())
+        if xs and (strip_generics(t.get("callee") or "") in xs or strip_generics(callee_name(t)) in xs):
+            if any(args[i].get("k") == "mv" and not args[i]["pl"].get("p") and not f.local_ty(args[i]["pl"]["l"]).startswith("&") for i in hit):
+                return "%s (consumes the list by value)" % strip_generics(t.get("callee") or callee_name(t))
         if callee_is(t, *FOREIGN_SINKS):
             return strip_generics(callee_name(t))
         name = strip_generics(callee_name(t))
@@ -167,6 +173,11 @@ class FdEngine:
             for i in hit:
                 if s.get(i + 1) in ("consume", "partial"):
                     return "%s (takes ownership of argument %d)" % (name, i)
+        if name == "std::vec::Vec::push" and KIND == "fd" and len(args) > 1 and op_place(args[1]) is not None and args[1]["pl"]["l"] in aliases:
+            # pushed into a plain local list of raw descriptors: not a release, the list now holds it (handled by the caller: see `holder`)
+            for r in tracer.roots_of_operand(args[0]):
+                if r.kind == "call" and r.block is not None and "Vec<i32>" in f.local_ty(f.term(r.block)["dest"]["l"]):
+                    return ("HOLD", f.term(r.block)["dest"]["l"])
         if name in ("std::collections::HashMap::insert", "std::vec::Vec::push"):
             # insertion into an owning container field of self
             for r in tracer.roots_of_operand(args[0]):
@@ -264,6 +275,9 @@ class FdEngine:
             t = f.term(b)
             if t["t"] == "call":
                 sk = self.sink_kind(f, t, aliases, tracer)
+                if isinstance(sk, tuple) and sk[0] == "HOLD":
+                    aliases.add(sk[1])
+                    sk = None
                 if sk:
                     if status == "released":
                         res["doubles"].append((b, sk))
@@ -541,6 +555,16 @@ def rule_fd_path(ctx, cfg, F, model, rule_name="FD-PATH", rule_text=None):
                     if not r["sinks"] and not r["leaks"]:
                         r["leaks"].append([b])
                     _report_path(R, cfg, f, b, "%s[%d]" % (what, k), r, "[%d]" % k)
+        # descriptors of a control message copied into an owned list: the list must be consumed by value (every element wrapped or closed) on every path
+        if KIND == "fd":
+            for (b, t) in cmsg_lists(F, f):
+                n_sources += 1
+                eng.extra_sinks = LIST_SINKS
+                try:
+                    r = eng.run(f, t["to"], {t["dest"]["l"]}, source_site=(b,))
+                finally:
+                    eng.extra_sinks = ()
+                _report_path(R, cfg, f, b, "list of descriptors copied out of the control message", r, "[list]")
         # descriptors received in control messages
         for (b, si, st) in cmsg_loads(F, f):
             n_sources += 1
@@ -621,6 +645,72 @@ def _out_array_via_call(f, operand):
     return None
 
 
+LIST_MAKERS = ("std::slice::to_vec", "core::slice::to_vec", "alloc::slice::to_vec", "std::borrow::ToOwned::to_owned", "std::convert::From::from", "std::iter::Iterator::collect",
+               "std::vec::Vec::from", "std::iter::FromIterator::from_iter", "std::vec::Vec::extend_from_slice")
+_LIST_FILLERS = ("std::vec::Vec::extend_from_slice", "std::vec::Vec::extend", "std::iter::Extend::extend", "std::vec::Vec::append")
+LIST_SINKS = ("std::iter::IntoIterator::into_iter", "std::vec::Vec::into_iter", "std::vec::Vec::drain")
+
+
+def cmsg_lists(F, f):
+    """calls that copy the descriptors of a control message into an owned list: (block, terminator)"""
+    calls = {strip_generics(callee_name(t)) for _, t in f.calls()}
+    if not any(c.endswith("CMSG_DATA") for c in calls):
+        return []
+    tr = Tracer(f)
+    out = []
+    for b, t in f.calls():
+        nm, decl = strip_generics(callee_name(t)), strip_generics(t.get("callee") or "")
+        if t["to"] >= 0 and nm in _LIST_FILLERS and len(t["args"]) > 1 and any(r.kind == "call" and r.id.endswith("CMSG_DATA") for r in tr.roots_of_operand(t["args"][1])):
+            # `list.extend_from_slice(control-message data)`: the list is the resource from here on
+            for r in tr.roots_of_operand(t["args"][0]):
+                if r.kind == "call" and r.block is not None and "Vec<i32>" in f.local_ty(f.term(r.block)["dest"]["l"]):
+                    out.append((b, dict(t, dest={"l": f.term(r.block)["dest"]["l"]})))
+            continue
+        if t["to"] < 0 or t["dest"].get("p") or "Vec<i32>" not in f.local_ty(t["dest"]["l"]):
+            continue
+        if not (nm in LIST_MAKERS or decl in LIST_MAKERS or nm.endswith("::to_vec") or nm.endswith("::collect")):
+            continue
+        if any(r.kind == "call" and r.id.endswith("CMSG_DATA") for a in t["args"] for r in tr.roots_of_operand(a)):
+            out.append((b, t))
+    return out
+
+
+def _from_cmsg_list(f, tr, block, depth=0):
+    """is the value produced by the call at `block` (Vec::pop, Iterator::next, Index::index ...) an element of a list of received descriptors?"""
+    t = f.term(block)
+    if t["t"] != "call" or not t["args"] or depth > 4:
+        return False
+    for r in tr.roots_of_operand(t["args"][0]):
+        if r.kind == "call" and r.id.endswith("CMSG_DATA"):
+            return True
+        if r.kind == "call" and r.block is not None and r.block != block:
+            tt = f.term(r.block)
+            nm = strip_generics(callee_name(tt))
+            if (nm in LIST_MAKERS or nm.endswith("::to_vec") or nm.endswith("::collect")) and any(
+                    x.kind == "call" and x.id.endswith("CMSG_DATA") for a in tt["args"] for x in tr.roots_of_operand(a)):
+                return True
+            if nm in ("std::vec::Vec::new", "std::vec::Vec::with_capacity") and _list_is_cmsg(f, tr, r.block):
+                return True
+            if _from_cmsg_list(f, tr, r.block, depth + 1):
+                return True
+    return False
+
+
+def _list_is_cmsg(f, tr, block):
+    """the Vec<i32> created at `block` holds descriptors taken from a control message"""
+    t = f.term(block)
+    nm = strip_generics(callee_name(t))
+    if any(x.kind == "call" and x.id.endswith("CMSG_DATA") for a in t["args"] for x in tr.roots_of_operand(a)):
+        return True
+    if nm in ("std::vec::Vec::new", "std::vec::Vec::with_capacity"):
+        for b2, t2 in f.calls():
+            if strip_generics(callee_name(t2)) in ("std::vec::Vec::push",) + _LIST_FILLERS and len(t2["args"]) > 1 and \
+                    any(x.kind == "call" and x.block == block for x in tr.roots_of_operand(t2["args"][0])) and \
+                    any(x.kind == "call" and x.id.endswith("CMSG_DATA") for x in tr.roots_of_operand(t2["args"][1])):
+                return True
+    return False
+
+
 def cmsg_loads(F, f):
     """statements `x = *p` (x integer) with p derived from CMSG_DATA in a function that receives"""
     calls = {strip_generics(callee_name(t)) for _, t in f.calls()}
@@ -638,7 +728,15 @@ def cmsg_loads(F, f):
             if rv["r"] != "use" or f.local_ty(st["lhs"]["l"]) not in INT_TYPES:
                 continue
             pl = op_place(rv["a"][0])
-            if pl is None or pl.get("p") != ["*"]:
+            if pl is None:
+                continue
+            if pl.get("p") != ["*"]:
+                # by-value element of a list of received descriptors: `fd = (next(&mut list.into_iter()) as Some).0`
+                if pl.get("p") and any(isinstance(e, dict) and "f" in e for e in pl["p"]):
+                    ds = [d for d in f.defs().get(pl["l"], []) if d[1] is None and not f.is_cleanup(d[0])]
+                    if len(ds) == 1 and strip_generics(ds[0][2].get("callee") or callee_name(ds[0][2])) in ("std::iter::Iterator::next",) and _from_cmsg_list(f, tr, ds[0][0]) \
+                            and "i32" in f.local_ty(pl["l"]) and "&" not in f.local_ty(pl["l"]):
+                        out.append((b, si, st))
                 continue
             roots = tr.roots(pl["l"])
             if any(r.kind == "call" and r.id.endswith("CMSG_DATA") for r in roots):
@@ -845,6 +943,12 @@ def _classify_released(F, f, tr, operand, model, site_block):
                 borrowed_desc.append("a borrowing read of %s.%s (%s)" % (mv_here[r.block]["field"] + (mv_here[r.block]["how"],)))
             elif r.id.endswith("CMSG_DATA"):
                 owned_desc.append("control-message data")
+            elif strip_generics(r.id) in ("std::vec::Vec::pop", "std::iter::Iterator::next", "std::vec::Vec::remove", "std::vec::Vec::swap_remove", "std::ops::Index::index") and r.block is not None \
+                    and _from_cmsg_list(f, tr, r.block):
+                owned_desc.append("element of the list of received descriptors")
+            elif r.block is not None and (strip_generics(r.id) in LIST_MAKERS or strip_generics(r.id).endswith("::to_vec") or strip_generics(r.id) in ("std::vec::Vec::new", "std::vec::Vec::with_capacity")) \
+                    and "Vec<i32>" in f.local_ty(f.term(r.block)["dest"]["l"]) and _list_is_cmsg(f, tr, r.block):
+                owned_desc.append("element of the list of received descriptors")
             elif r.id in ("std::collections::HashMap::get", "std::collections::HashMap::remove", "std::collections::hash_map::HashMap::values",
                           "std::collections::HashMap::values", "std::iter::Iterator::next") or "hash_map" in r.id or "HashMap" in r.id:
                 owned_desc.append("table entry (see FD-CLOSE-OWNED)")
@@ -900,6 +1004,11 @@ def rule_close_owned(ctx, cfg, F, model):
                 elif r.kind == "param" and not r.field_names() and summ.get(strip_generics(f.path), {}).get(r.id) in ("consume",):
                     kinds.append("owned-param")
                 elif r.kind in ("agg", "local"):
+                    kinds.append("owned-local")
+                elif r.kind == "call" and r.block is not None and strip_generics(r.id) in ("std::iter::Iterator::next", "std::vec::Vec::pop", "std::vec::Vec::remove", "std::vec::Vec::swap_remove") \
+                        and _from_cmsg_list(f, tr, r.block):
+                    kinds.append("owned-local")      # an element taken out of the list of descriptors received with this message
+                elif r.kind == "call" and r.block is not None and "Vec<i32>" in f.local_ty(f.term(r.block)["dest"]["l"]) and _list_is_cmsg(f, tr, r.block):
                     kinds.append("owned-local")
                 else:
                     kinds.append("BAD:value of unknown ownership (%r)" % (r,))
